@@ -84,6 +84,10 @@ pub fn run(run: &Run) {
     run.add_states(n as u64, 0);
     run.add_traces(n as u64);
     run.sample(json!({"build": all[n / 3].describe(), "hashes": hashes(&all[n / 3].term).iter().map(|h| format!("{h:016x}")).collect::<Vec<_>>()}));
+    // hashes of every build computed once on THIS thread; the pair loop below runs on worker threads
+    // and compares its own hashes of `a` with this thread's hashes of `b` - a hash that depends on
+    // the hashing thread (thread-local keys) is not a function of the value
+    let here: Vec<Vec<u64>> = all.iter().map(|b| hashes(&b.term)).collect();
     let mut by_class: HashMap<usize, Vec<usize>> = HashMap::new();
     for (i, b) in all.iter().enumerate() {
         by_class.entry(b.class).or_default().push(i);
@@ -95,7 +99,13 @@ pub fn run(run: &Run) {
                 run.eval(1);
                 run.add_distinct(1);
                 let (x, y) = (&all[i], &all[j]);
-                let res = crate::report::quiet_catch(std::panic::AssertUnwindSafe(|| check_pair(&x.term, &y.term)));
+                let res = crate::report::quiet_catch(std::panic::AssertUnwindSafe(|| {
+                    let mine = hashes(&x.term);
+                    if mine != here[j] {
+                        return Err(format!("hashes of a computed on a worker thread {mine:x?} differ from hashes of b computed on the main thread {:x?}", here[j]));
+                    }
+                    check_pair(&x.term, &y.term)
+                }));
                 let res = match res { Ok(r) => r, Err(p) => Err(format!("panic: {p}")) };
                 if let Err(msg) = res {
                     run.violation(
